@@ -6,7 +6,7 @@
    regenerated into gen/Consts.v): named flags in any order, then the EVM network sub-command with
    its own options.  Definitions only. *)
 From Coq Require Import List NArith String Ascii Bool.
-From V Require Import lib.Strs lib.Dec.
+From V Require Import lib.Strs lib.Dec gen.Consts.
 Import ListNotations.
 Open Scope string_scope.
 
@@ -227,3 +227,24 @@ Definition agree_ctxs (c : cfg) (env : option (list (string * string))) (observe
            (install upgrade : ictx) : bool :=
   ctx_eqb (install_ctx c env) install &&
   ctx_eqb (upgrade_ctx (match observed with Some p => set_port c (Some p) | None => c end) o) upgrade.
+
+(* ---------------------------------------------------------------- the run-time meaning of --network-id *)
+(* ant-protocol/src/version.rs: format!("ant/node/{}/{}", truncated_version, NETWORK_ID) etc.; the formats, the
+   default id and the truncated crate version are regenerated from the source *)
+Fixpoint fill (fmt : string) (args : list string) : string :=
+  match fmt with
+  | String "{" (String "}" r) => match args with a :: rest => a ++ fill r rest | [] => fill r [] end
+  | String c r => String c (fill r args)
+  | EmptyString => EmptyString
+  end.
+
+Definition effective_netid (c : cfg) : N := match c_netid c with Some n => n | None => Consts.default_network_id end.
+
+(* the protocol strings a node installed with configuration c runs with, in declaration order
+   (identify node version, identify client version, request/response protocol, identify protocol) *)
+Definition protocol_strings (c : cfg) : list string :=
+  map (fun f => fill f [Consts.ant_protocol_version_truncated; dec (effective_netid c)]) Consts.protocol_str_formats.
+
+(* what the node reports: its network id and the four strings *)
+Definition agree_protocol (c : cfg) (id : string) (reported : list string) : bool :=
+  String.eqb (dec (effective_netid c)) id && ls_eqb (protocol_strings c) reported.
